@@ -132,7 +132,29 @@ def run_c07(pid: str, tier: str) -> int:
                  'Score.tla sanity laws on the complete domain',
                  constants='35 bids x 3 doubling states x 4 vulnerabilities x 4 declarers x 14 trick counts',
                  workers=8)
-    events = score_events('natural', r)
+    # two callers at the same time, the first calls of the process (before
+    # anything else has used the scoring functions in this process)
+    from . import race
+
+    def make_calls():
+        Bid, Contract, Player, Vul, score = _imports()
+
+        def mk(tag, items):
+            def call():
+                out = []
+                for k, (b, x, xx, v, d, t) in enumerate(items):
+                    c = Contract(Bid.int_to_bid(b), x=x, xx=xx, vul=Vul(v + 1), declarer=Player(d + 1))
+                    e = {'tid': f'{tag}{k}', 'ev': 'score', 'bid': b, 'x': x, 'xx': xx, 'vul': v,
+                         'decl': d, 'tricks': t}
+                    e.update(_call(score.calc_score, c, t))
+                    out.append(e)
+                return out
+            return call
+        return (mk('a', [(34, True, True, 3, 0, 13), (0, False, False, 0, 1, 0), (14, True, False, 1, 2, 9)]),
+                mk('b', [(34, False, False, 3, 1, 13), (19, True, True, 2, 3, 6), (29, False, False, 1, 0, 12),
+                         (3, True, False, 0, 2, 7), (24, False, False, 3, 3, 11)]))
+    race_events = race.run_race(chk, 'calc_score', make_calls, 200)
+    events = race_events + score_events('natural', r)
     events += score_events('shuffled', r)
     if tier == 'thorough':
         events += score_events('reversed', r)
@@ -283,7 +305,28 @@ def run_c16(pid: str, tier: str) -> int:
     else:
         tlc.require_clean(res, 'ImpScaleChecks')
     chk.add_tlc(res, 'ASSUME ImpScaleChecks on -6000..6000 (+ Score domain)')
-    events = imp_events(tier, r)
+    from . import race
+
+    def make_calls():
+        Bid, Contract, Player, Vul, score = _imports()
+
+        def mk(tag, ds, pairs):
+            def call():
+                out = []
+                for k, d in enumerate(ds):
+                    e = {'tid': f'{tag}{k}', 'ev': 'imp', 'd': d}
+                    e.update(_call(score.point_difference_to_imps, d))
+                    out.append(e)
+                for k, (a, b) in enumerate(pairs):
+                    e = {'tid': f'{tag}p{k}', 'ev': 'imp2', 'a': a, 'b': b}
+                    e.update(_call(score.score_to_imp, a, b))
+                    out.append(e)
+                return out
+            return call
+        return (mk('a', [600, -45, 4010], [(420, 420)]),
+                mk('b', [0, 19, 20, 600, -600, 3999, 4000, 5000, 7600, -7600, 12345], [(100, -600), (7600, 400)]))
+    race_events = race.run_race(chk, 'imps', make_calls, 200)
+    events = race_events + imp_events(tier, r)
     from .core import repo_test_events
     rt = [e for e in repo_test_events(['tests']) if e.get('ev') in ('imp', 'imp2')]
     for e in rt:
